@@ -4,7 +4,7 @@
    events and the ghost marker set are havocked.  Marker-discipline panics (SMarker, SDropBomb,
    SProcess) are not excluded here -- they are the subject of theorem B. *)
 From Coq Require Import NArith Arith List Bool Lia.
-From OQ3 Require Import gen.Kinds Model.Parser Model.Grammar.
+From OQ3 Require Import gen.Kinds Model.Parser Model.Grammar Proofs.TablesP.
 Import ListNotations.
 Local Open Scope nat_scope.
 
@@ -76,7 +76,7 @@ Qed.
 Lemma nth_at_pure_bound p k :
   k <> K_EOF -> nth_at_pure p 0 k = true -> p + n_raw_of k <= n.
 Proof.
-  unfold Parser.nth_at_pure, n_raw_of. intros Hk.
+  rewrite n_raw_of_spec. unfold Parser.nth_at_pure. intros Hk.
   destruct (assocN k composite2) as [[k1 k2]|] eqn:E2.
   - apply assocN_in in E2. pose proof composite2_ne as F. rewrite Forall_forall in F.
     specialize (F _ E2). cbn in F. destruct F as [F1 F2].
@@ -90,14 +90,14 @@ Proof.
     + rewrite N.eqb_eq. intros H. assert (p + 0 < n) by (apply kind_at_lt; congruence). lia.
 Qed.
 Lemma n_raw_pos k : 0 < n_raw_of k.
-Proof. unfold n_raw_of. destruct (assocN k composite2); [lia|]. destruct (assocN k composite3); lia. Qed.
+Proof. rewrite n_raw_of_spec. destruct (assocN k composite2); [lia|]. destruct (assocN k composite3); lia. Qed.
 
 (* a simple (non-composite) kind: at_ is a test on the current kind *)
 Definition simple (k : N) : Prop := assocN k composite2 = None /\ assocN k composite3 = None.
 Lemma nth_at_simple p k : simple k -> nth_at_pure p 0 k = N.eqb (kind_at (p + 0)) k.
 Proof. intros [H2 H3]. unfold Parser.nth_at_pure. rewrite H2, H3. auto. Qed.
 Lemma n_raw_simple k : simple k -> n_raw_of k = 1.
-Proof. intros [H2 H3]. unfold n_raw_of. rewrite H2, H3. auto. Qed.
+Proof. intros [H2 H3]. rewrite n_raw_of_spec, H2, H3. auto. Qed.
 
 (* ---- primitives ---- *)
 Lemma WP_get (Q : pst -> nat -> Prop) p : (forall s0, pos s0 = p -> Q s0 p) -> WP get Q p.
